@@ -3,6 +3,7 @@ import os, sys
 sys.path.insert(0, os.path.join(os.path.dirname(os.path.abspath(__file__)), '..'))
 from go2v_hook import go2v_hook
 CONF = {
+    'coq_sample': 30,   # cases re-evaluated inside Coq by vm_compute against the extracted runner's output
     'pre': [go2v_hook],
     'interesting': ['out-of-order-queue', 'overlap-trim', 'duplicate-drop', 'wrap-crossed',
                     'limit-flush', 'age-flush', 'late-syn', 'multi-page'],
